@@ -7,7 +7,7 @@ namespace LyModel.Diff
 open LyModel LyModel.Tree
 
 /-- the instance of `l` that `lyd_diff_find_match` returns for `t` -/
-def partner (S : Schema) (l : List DNode) (t : DNode) : Option DNode := l.find? (matchP S t)
+def partner (S : Schema) (l : List DNode) (t : DNode) : Option DNode := l.find? (matchK S t)
 
 theorem findIdx_bind_get {α : Type} (p : α → Bool) : ∀ (l : List α), (l.findIdx? p).bind (l[·]?) = l.find? p
   | [] => rfl
@@ -21,22 +21,22 @@ theorem findIdx_bind_get {α : Type} (p : α → Bool) : ∀ (l : List α), (l.f
       cases xs.findIdx? p <;> simp
 
 theorem findMatch_true (S : Schema) (sibs : List DNode) (t : DNode) (used : List Nat) (h : S.isDupInst t.sid = false) :
-    findMatch S sibs t true used = (sibs.findIdx? (matchP S t), used) := by
+    findMatch S sibs t true used = (sibs.findIdx? (matchK S t), used) := by
   rw [findMatch_plain S sibs t true used h]
-  cases sibs.findIdx? (matchP S t) <;> simp
+  cases sibs.findIdx? (matchK S t) <;> simp
 
 theorem partner_mem (S : Schema) (l : List DNode) (t b : DNode) (h : partner S l t = some b) : b ∈ l :=
   List.mem_of_find?_eq_some h
 
 theorem partner_kkey (S : Schema) (l : List DNode) (t b : DNode) (hd : S.isDupInst t.sid = false)
     (h : partner S l t = some b) : kkey S b = kkey S t :=
-  (matchP_iff_kkey S t b hd).1 (List.find?_some h)
+  (matchK_iff_kkey S t b hd).1 (List.find?_some h)
 
 theorem partner_none (S : Schema) (l : List DNode) (t : DNode) (hd : S.isDupInst t.sid = false)
     (h : partner S l t = none) : ∀ x ∈ l, kkey S x ≠ kkey S t := by
   intro x hx hk
   have := List.find?_eq_none.1 h x hx
-  rw [(matchP_iff_kkey S t x hd).2 hk] at this
+  rw [(matchK_iff_kkey S t x hd).2 hk] at this
   exact absurd rfl this
 
 theorem partner_of_key (S : Schema) (l : List DNode) (t b : DNode) (hd : S.isDupInst t.sid = false)
@@ -54,12 +54,12 @@ theorem partner_of_key (S : Schema) (l : List DNode) (t b : DNode) (hd : S.isDup
 
 theorem sameInst_kkey (S : Schema) (x node : DNode) (hd : S.isDupInst node.sid = false)
     (h : sameInst S x node = true) : kkey S x = kkey S node := by
-  apply (matchP_iff_kkey S node x hd).1
+  apply (matchK_iff_kkey S node x hd).1
   have hsid : x.sid = node.sid := by
     unfold sameInst at h
     simp only [Bool.and_eq_true, beq_iff_eq] at h
     exact h.1
-  unfold matchP
+  unfold matchK
   split <;> simp [hsid, h]
 
 structure AddOk (S : Schema) (st st' : St) (d : DNode) : Prop where
@@ -126,7 +126,7 @@ theorem phase1Step_eq_p1 (S : Schema) (top : Bool) (recur : List DNode → List 
   unfold phase1Step p1 phase1Plain
   simp only [Bool.not_true, Bool.and_false, Bool.false_eq_true, if_false, findMatch_true S bs a st.used hnd, hnu,
     findIdx_bind_get]
-  have hpe : List.find? (matchP S a) bs = partner S bs a := rfl
+  have hpe : List.find? (matchK S a) bs = partner S bs a := rfl
   rw [hpe]
   cases hp : partner S bs a with
   | none => simp [plainAttrs]
@@ -220,10 +220,10 @@ theorem phase2Step_eq_p2 (S : Schema) (as bs : List DNode) (st : St) (b : DNode)
   have hst : ({ st with used := st.used } : St) = st := by cases st; rfl
   unfold phase2Step p2 partner
   simp only [Bool.not_true, Bool.and_false, Bool.false_eq_true, if_false, findMatch_true S as b st.used hnd, hnu]
-  cases hf : as.findIdx? (matchP S b) with
+  cases hf : as.findIdx? (matchK S b) with
   | none => rw [(findIdx_none_iff_find _ _).1 hf]
   | some i =>
-    cases hp : as.find? (matchP S b) with
+    cases hp : as.find? (matchK S b) with
     | none => rw [(findIdx_none_iff_find _ _).2 hp] at hf; simp at hf
     | some x => rfl
 
